@@ -38,7 +38,8 @@ fn sig(a: &mdscan::Atom, scan: &Scan, dir: &str) -> String {
 fn sigs(text: &str, key: &str) -> Vec<String> {
     let scan = mdscan::scan(text);
     let dir = mdscan::key_dir(key);
-    scan.atoms.iter().filter(|a| a.kind != AKind::Html).map(|a| sig(a, &scan, &dir)).collect()
+    // a heading or item without text (what list-to-sections makes of an item that starts with a code block) carries no content
+    scan.atoms.iter().filter(|a| a.kind != AKind::Html).map(|a| sig(a, &scan, &dir)).filter(|s| s != "t||").collect()
 }
 
 fn multiset(v: &[String]) -> BTreeMap<String, i64> {
